@@ -5,6 +5,8 @@ import (
 	stdjson "encoding/json"
 	"fmt"
 	"io"
+	"reflect"
+	"strconv"
 	"strings"
 	"unicode/utf8"
 
@@ -515,6 +517,134 @@ func c17Decode(c *work.Ctx) {
 			if k < 0 {
 				break
 			}
+		}
+	}
+}
+
+// ---- member names ---------------------------------------------------------------------------------------
+//
+// c17.keys: the NAME of a struct member is a string literal of the output as well, written from a key text that
+// is compiled once per way of reaching the struct type. Names made of every character class a tag may carry
+// (HTML specials, quotes are not allowed in tags, non-ASCII, line separators) x every constructor around the
+// struct (value, pointer, slice, array, map value, interface member, embedded, nested twice) x HTML escaping on /
+// off x {Marshal, MarshalIndent, Encoder}: the bytes of encoding/json with the same setting (member names have no
+// alternative spellings).
+
+func init() {
+	work.Register("C17", "c17.keys", c17Keys)
+}
+
+func c17Keys(c *work.Ctx) {
+	names := []string{"a<b", "a>b", "a&b", "<", "&&", "a<b>c&d", "é<", "a b", " ", "plain", "a.b/c", "ü&1"}
+	wrap := func(t reflect.Type) []reflect.Type {
+		holder := reflect.StructOf([]reflect.StructField{{Name: "H", Type: t, Tag: `json:"h"`}, {Name: "I", Type: reflect.TypeOf((*interface{})(nil)).Elem(), Tag: `json:"i"`}})
+		return []reflect.Type{t, reflect.PtrTo(t), reflect.SliceOf(t), reflect.ArrayOf(1, t), reflect.ArrayOf(2, t), reflect.MapOf(reflect.TypeOf(""), t),
+			reflect.SliceOf(reflect.ArrayOf(2, t)), reflect.ArrayOf(2, reflect.PtrTo(t)), reflect.MapOf(reflect.TypeOf(""), reflect.ArrayOf(1, t)), holder, reflect.ArrayOf(1, holder)}
+	}
+	fill := func(v reflect.Value, t reflect.Type) {}
+	var fillRec func(v reflect.Value, depth int)
+	fillRec = func(v reflect.Value, depth int) {
+		switch v.Kind() {
+		case reflect.Ptr:
+			v.Set(reflect.New(v.Type().Elem()))
+			fillRec(v.Elem(), depth+1)
+		case reflect.Slice:
+			v.Set(reflect.MakeSlice(v.Type(), 1, 1))
+			fillRec(v.Index(0), depth+1)
+		case reflect.Array:
+			for i := 0; i < v.Len(); i++ {
+				fillRec(v.Index(i), depth+1)
+			}
+		case reflect.Map:
+			m := reflect.MakeMap(v.Type())
+			e := reflect.New(v.Type().Elem()).Elem()
+			fillRec(e, depth+1)
+			m.SetMapIndex(reflect.ValueOf("k"), e)
+			v.Set(m)
+		case reflect.Struct:
+			for i := 0; i < v.NumField(); i++ {
+				fillRec(v.Field(i), depth+1)
+			}
+		case reflect.Int:
+			v.SetInt(1)
+		case reflect.String:
+			v.SetString("s")
+		}
+	}
+	_ = fill
+	for _, n := range names {
+		st := reflect.StructOf([]reflect.StructField{{Name: "F", Type: reflect.TypeOf(0), Tag: reflect.StructTag(`json:` + strconv.Quote(n))}, {Name: "G", Type: reflect.TypeOf(""), Tag: reflect.StructTag(`json:` + strconv.Quote(n+"2,omitempty"))}})
+		for _, t := range wrap(st) {
+			id := fmt.Sprintf("member name %q in %s", n, strings.Replace(t.String(), st.String(), "S", -1))
+			if !c.BeginS(id) {
+				continue
+			}
+			v := reflect.New(t).Elem()
+			fillRec(v, 0)
+			// the interface member of the holder holds the struct itself
+			if t.Kind() == reflect.Struct && t.NumField() == 2 && t.Field(1).Name == "I" {
+				inner := reflect.New(st).Elem()
+				fillRec(inner, 0)
+				v.Field(1).Set(inner)
+			}
+			x := v.Interface()
+			for _, html := range []bool{true, false} {
+				for _, ep := range []string{"Marshal", "MarshalIndent", "Encoder"} {
+					var got, want []byte
+					var gerr, werr error
+					p, msg := util.Safe(func() {
+						switch ep {
+						case "Marshal":
+							if html {
+								got, gerr = json.Marshal(x)
+							} else {
+								got, gerr = json.MarshalWithOption(x, json.DisableHTMLEscape())
+							}
+						case "MarshalIndent":
+							if html {
+								got, gerr = json.MarshalIndent(x, "", " ")
+							} else {
+								got, gerr = json.MarshalIndentWithOption(x, "", " ", json.DisableHTMLEscape())
+							}
+						default:
+							var b bytes.Buffer
+							e := json.NewEncoder(&b)
+							e.SetEscapeHTML(html)
+							gerr = e.Encode(x)
+							got = b.Bytes()
+						}
+					})
+					var wb bytes.Buffer
+					we := stdjson.NewEncoder(&wb)
+					we.SetEscapeHTML(html)
+					if ep == "MarshalIndent" {
+						we.SetIndent("", " ")
+					}
+					werr = we.Encode(x)
+					want = wb.Bytes()
+					if ep != "Encoder" {
+						want = bytes.TrimSuffix(want, []byte("\n"))
+					}
+					c.Count("key_encodes", 1)
+					kind := ""
+					switch {
+					case p:
+						kind = "panic:" + util.ErrClass(msg)
+					case (gerr == nil) != (werr == nil):
+						kind = "error-mismatch"
+					case gerr == nil && !bytes.Equal(got, want):
+						kind = "bytes-differ"
+						if html && bytes.ContainsAny(got, "<>&") {
+							kind = "raw-html-character-in-member-name"
+						}
+					}
+					c.Outcome(kind)
+					if kind != "" {
+						c.Violation(fmt.Sprintf("member name : %s : html escaping %v : %s : %s", kind, html, ep, c17Classes([]byte(n))), id, fmt.Sprintf("go-json %q err=%v ; encoding/json %q err=%v", clip(got), gerr, clip(want), werr))
+					}
+				}
+			}
+			c.EndCase()
 		}
 	}
 }
